@@ -294,10 +294,84 @@ func registerScenario(nGlobal int) *mc.Scenario {
 	}
 }
 
+// handleMiddlewareScenario: two threads resolve the same route and run Route.HandleMiddleware (and
+// Route.Handle / ServeHTTP) at the same time; the route is shared and must behave as immutable: each
+// call runs the route middleware exactly once around the handler.
+func handleMiddlewareScenario(entry string) *mc.Scenario {
+	return &mc.Scenario{
+		Name:     "two threads running " + entry + " of one route",
+		Describe: "a route with two route-specific middleware whose constructors and bodies are scheduling points; both threads call " + entry,
+		Build: func() *mc.Instance {
+			traces := make([][]string, 2)
+			mw := func(id string) fox.MiddlewareFunc {
+				return func(n fox.HandlerFunc) fox.HandlerFunc {
+					vs.Step("middleware constructor")
+					return func(c fox.Context) {
+						t := vs.ThreadID()
+						traces[t] = append(traces[t], id)
+						vs.Step("middleware body")
+						n(c)
+					}
+				}
+			}
+			f, err := fox.New()
+			if err != nil {
+				panic(err)
+			}
+			f.MustHandle("GET", "/r/{x}", func(c fox.Context) {
+				t := vs.ThreadID()
+				traces[t] = append(traces[t], "h")
+			}, fox.WithMiddleware(mw("m1"), mw("m2")))
+			body := func() {
+				switch entry {
+				case "Route.HandleMiddleware":
+					rt, cc, _ := f.Lookup(fx.WrapRW(fx.NewRW()), fx.Req("GET", "", "/r/v"))
+					if rt != nil {
+						rt.HandleMiddleware(cc)
+						cc.Close()
+					}
+				case "Route.Handle":
+					rt, cc, _ := f.Lookup(fx.WrapRW(fx.NewRW()), fx.Req("GET", "", "/r/v"))
+					if rt != nil {
+						rt.Handle(cc)
+						cc.Close()
+					}
+				default:
+					f.ServeHTTP(fx.NewRW(), fx.Req("GET", "", "/r/v"))
+				}
+			}
+			want := "m1,m2,h"
+			if entry == "Route.Handle" {
+				want = "h"
+			}
+			return &mc.Instance{
+				Bodies: []func(){body, body},
+				Check: func(x *mc.Exec) (string, string, string) {
+					if x.S.Deadlock {
+						return "deadlock", "deadlock", x.S.DeadInfo
+					}
+					for t := 0; t < 2; t++ {
+						if pv, stk := x.S.PanicOf(t); pv != nil {
+							return "panic", "panic", fmt.Sprintf("thread %d: %v\n%s", t, pv, mc.NormStack(stk, 10))
+						}
+						if got := strings.Join(traces[t], ","); got != want {
+							return "mixed", "route-chain-broken", fmt.Sprintf("thread %d ran [%s] through %s, want [%s]", t, got, entry, want)
+						}
+					}
+					return "ok", "", ""
+				},
+			}
+		},
+	}
+}
+
 func serveScenarios() []*mc.Scenario {
 	var out []*mc.Scenario
 	for _, n := range []int{0, 3, 5, 6} {
 		out = append(out, registerScenario(n))
+	}
+	for _, e := range []string{"Route.HandleMiddleware", "Route.Handle", "ServeHTTP"} {
+		out = append(out, handleMiddlewareScenario(e))
 	}
 	for i, a := range serveKinds {
 		for _, b := range serveKinds[i:] {
